@@ -170,6 +170,9 @@ int ref_hash_deprecated_at(int alg, uint64_t t) {
 	if (alg == RH_SHA1) return t >= REF_SHA1_DEPRECATED_FROM;
 	return 0;
 }
+/* algorithms the SDK build under test (OpenSSL hashing back end) implements; SHA-3 and SM3 ids are
+ * known to the format but not computable by that back end */
+int ref_backend_supports(int alg) { return alg == RH_SHA1 || alg == RH_SHA256 || alg == RH_RIPEMD160 || alg == RH_SHA384 || alg == RH_SHA512; }
 int ref_hash_trusted(int alg) { return alg_idx(alg) >= 0 && alg != RH_SHA1; }
 
 size_t ref_hmac(int alg, const void *key, size_t keylen, const void *data, size_t n, unsigned char out[RH_MAX_IMPRINT]) {
